@@ -13,6 +13,7 @@ import (
 	"go.etcd.io/bbolt"
 	"pgregory.net/rapid"
 
+	"verifharness/pbt"
 	"verifharness/stats"
 )
 
@@ -44,7 +45,12 @@ func truncDiv(amount uint64, rate int64) *big.Int {
 	return p.Quo(p, big.NewInt(1_000_000)) // Quo truncates toward zero
 }
 
-func TestC27PremiumRates(t *testing.T) {
+func TestC27PremiumRates(t *testing.T) { propC27PremiumRates(t) }
+
+// FuzzC27PremiumRates drives the same property body with Go's coverage-guided fuzzer (thorough tier).
+func FuzzC27PremiumRates(f *testing.F) { propC27PremiumRates(f) }
+
+func propC27PremiumRates(t testing.TB) {
 	col := stats.Get("C27.premium")
 	dir := fastTempDir("c27")
 	defer os.RemoveAll(dir)
@@ -57,7 +63,7 @@ func TestC27PremiumRates(t *testing.T) {
 		t.Fatal(err)
 	}
 	defer store.Close()
-	rapid.Check(t, func(t *rapid.T) {
+	pbt.Run(t, func(t *rapid.T) {
 		n++
 		path := fmt.Sprintf("%s/c27-%d.db", dir, n)
 		db, err := bbolt.Open(path, 0o600, &bbolt.Options{NoSync: true})
